@@ -6,6 +6,10 @@ Statements about the serial client model (`H2.Client.Model`), the one the steppi
 with the real `Conn` step by step. Response assembly happens on the read loop alone, so "however the
 server orders or interleaves its frames" is "for every frame and every state": the theorems quantify
 over all states and frames, not over a generated set.
+
+A header block that goes on in CONTINUATION frames is kept until END_HEADERS and decoded whole (repair of F36):
+`split_invariance` is the property's "fragmented at any byte", and `C02_full`, refuted before the repair
+(`C02_full_fails`, `F36_witness`), is now a theorem. The old witness is the regression example at the end.
 -/
 namespace H2.Props.C02
 
@@ -83,6 +87,15 @@ theorem request_regular_fields (r : ReqSpec) (k v : Bytes) :
 
 /-! ## responses: a frame touches only the request bound to its stream -/
 
+theorem othersSame_settle (c : Conn) (tag : String) (sid : Nat) (err : Option Err) (endS : Bool) :
+    OthersSame tag c (settle c tag sid err endS).1 := by
+  simp only [settle]
+  split
+  · split
+    · exact othersSame_finish _ _ _ _
+    · exact OthersSame.refl _ _
+  · exact othersSame_finish _ _ _ _
+
 /-- **no_cross_delivery**: processing any server frame on stream `f.stream` leaves every request other
 than the one registered for that stream exactly as it was — status, fields, body, result -/
 theorem no_cross_delivery (c : Conn) (f : Frame.Frame) (tag : String)
@@ -93,15 +106,17 @@ theorem no_cross_delivery (c : Conn) (f : Frame.Frame) (tag : String)
   · rename_i r hr
     split
     · exact OthersSame.of_reqs rfl
-    · have h1 := othersSame_readStream c tag r f (getReq_tag hr)
-      rcases hrs : readStream c tag r f with ⟨c1, e⟩
+    · rcases hp : prepare c f with ⟨c', endS⟩
+      have h0 : OthersSame tag c c' := by
+        have : c'.reqs = c.reqs := by
+          have := congrArg (fun x => x.1.reqs) hp
+          simp only [prepare, noteHeaders] at this
+          rw [← this]; repeat (first | rfl | split)
+        exact OthersSame.of_reqs this
+      have h1 := h0.trans (othersSame_readStream c' tag r f (getReq_tag hr))
+      rcases hrs : readStream c' tag r f with ⟨c1, e⟩
       rw [hrs] at h1
-      simp only
-      split
-      · split
-        · exact h1.trans (othersSame_finish _ _ _ _)
-        · exact h1
-      · exact h1.trans (othersSame_finish _ _ _ _)
+      exact h1.trans (othersSame_settle _ _ _ _ _)
 
 /-- responses that cannot be told apart by stream id do not exist: a stream id is bound to at most one
 request (`insertA` replaces, `writeRequest` uses a fresh id) -/
@@ -121,7 +136,7 @@ theorem lookup_insert (l : List (Nat × String)) (k : Nat) (v : String) : lookup
         simp only [lookupA, List.find?_cons, this] at ih ⊢
         exact ih
 
-/-! ## header blocks continued in CONTINUATION (finding F36, known) -/
+/-! ## header blocks continued in CONTINUATION -/
 
 def hdrFrame (sid : Nat) (es eh : Bool) (frag : Bytes) : Frame.Frame :=
   ⟨Gen.c_FrameHeaders, (if es then 1 else 0) + (if eh then 4 else 0), sid, frag.length, .headers es eh none frag⟩
@@ -129,14 +144,200 @@ def hdrFrame (sid : Nat) (es eh : Bool) (frag : Bytes) : Frame.Frame :=
 def contFrame (sid : Nat) (eh : Bool) (frag : Bytes) : Frame.Frame :=
   ⟨Gen.c_FrameContinuation, (if eh then 4 else 0), sid, frag.length, .continuation eh frag⟩
 
+theorem hdr_es (sid : Nat) (es eh : Bool) (frag : Bytes) :
+    Frame.hasFlag (hdrFrame sid es eh frag).flags Gen.c_FlagEndStream = es := by
+  cases es <;> cases eh <;> simp [hdrFrame, Frame.hasFlag, Gen.c_FlagEndStream]
+
+theorem hdr_eh (sid : Nat) (es eh : Bool) (frag : Bytes) :
+    Frame.hasFlag (hdrFrame sid es eh frag).flags Gen.c_FlagEndHeaders = eh := by
+  cases es <;> cases eh <;> simp [hdrFrame, Frame.hasFlag, Gen.c_FlagEndHeaders]
+
+theorem cont_eh (sid : Nat) (eh : Bool) (frag : Bytes) :
+    Frame.hasFlag (contFrame sid eh frag).flags Gen.c_FlagEndHeaders = eh := by
+  cases eh <;> simp [contFrame, Frame.hasFlag, Gen.c_FlagEndHeaders]
+
+/-- the request on stream `sid` is still waited on -/
+structure Live (c : Conn) (sid : Nat) (tag : String) : Prop where
+  queued : lookupA c.reqQueued sid = some tag
+  held : ∃ r, getReq c tag = some r ∧ r.done = false
+
+theorem settle_none_false (c : Conn) (tag : String) (sid : Nat) : (settle c tag sid none false).1 = c := by
+  simp only [settle]
+  split
+  · rfl
+  · rename_i e h
+    split at h <;> simp_all
+
+/-- what `readStream` does with the decoded block `blk` -/
+def decodeBlock (c : Conn) (tag : String) (r : Req) (blk : Bytes) : Conn × Option Err :=
+  let (st, r', e) := readHeader (blk.length + 1) c.dec r false false 0 blk
+  (updReq { c with dec := st, hdrBlock := [] } tag fun _ => r', e)
+
+theorem readStream_hdr (c : Conn) (tag : String) (r : Req) (sid : Nat) (es eh : Bool) (frag : Bytes) :
+    readStream c tag r (hdrFrame sid es eh frag) =
+      if eh then decodeBlock c tag r frag else ({ c with hdrBlock := frag }, none) := by
+  cases es <;> cases eh <;>
+    simp [readStream, hdrFrame, decodeBlock, Frame.hasFlag, Gen.c_FlagEndHeaders, Gen.c_FrameHeaders]
+
+theorem readStream_cont (c : Conn) (tag : String) (r : Req) (sid : Nat) (eh : Bool) (frag : Bytes) :
+    readStream c tag r (contFrame sid eh frag) =
+      if eh then decodeBlock c tag r (c.hdrBlock ++ frag) else ({ c with hdrBlock := c.hdrBlock ++ frag }, none) := by
+  cases eh <;>
+    simp [readStream, contFrame, decodeBlock, Frame.hasFlag, Gen.c_FlagEndHeaders, Gen.c_FrameHeaders, Gen.c_FrameContinuation]
+
+theorem prepare_hdr (c : Conn) (sid : Nat) (es eh : Bool) (frag : Bytes) (h0 : sid ≠ 0) :
+    prepare c (hdrFrame sid es eh frag) =
+      ({ c with hdrEndStream := if eh then 0 else if es then sid else 0 }, eh && es) := by
+  have ht : ((hdrFrame sid es eh frag).typ == Gen.c_FrameHeaders) = true := rfl
+  have hs : (hdrFrame sid es eh frag).stream = sid := rfl
+  have hd : ((hdrFrame sid es eh frag).typ == Gen.c_FrameData) = false := rfl
+  have h0' : (0 == sid) = false := by simpa using fun h : 0 = sid => h0 h.symm
+  simp only [prepare, noteHeaders, endsBlock, endsStream, ht, hs, hd, hdr_es, hdr_eh, Bool.true_or, Bool.true_and, if_true,
+    Bool.and_false]
+  cases eh <;> cases es <;> simp [h0']
+
+theorem prepare_cont (c : Conn) (sid : Nat) (eh : Bool) (frag : Bytes) :
+    prepare c (contFrame sid eh frag) =
+      ({ c with hdrEndStream := if eh then 0 else c.hdrEndStream }, eh && c.hdrEndStream == sid) := by
+  have ht : ((contFrame sid eh frag).typ == Gen.c_FrameHeaders) = false := rfl
+  have ht2 : ((contFrame sid eh frag).typ == Gen.c_FrameContinuation) = true := rfl
+  have hs : (contFrame sid eh frag).stream = sid := rfl
+  have hd : ((contFrame sid eh frag).typ == Gen.c_FrameData) = false := rfl
+  simp only [prepare, noteHeaders, endsBlock, endsStream, ht, ht2, hs, hd, cont_eh, Bool.or_true, Bool.true_and, Bool.false_eq_true,
+    if_false, Bool.and_false]
+  cases eh <;> simp
+
+/-- `dispatch` of a HEADERS frame on a stream that is waited on -/
+theorem dispatch_hdr (c : Conn) (sid : Nat) (tag : String) (r : Req) (es eh : Bool) (frag : Bytes) (h0 : sid ≠ 0)
+    (hq : lookupA c.reqQueued sid = some tag) (hr : getReq c tag = some r) (hd : r.done = false) :
+    dispatch c (hdrFrame sid es eh frag) =
+      settle (readStream { c with hdrEndStream := if eh then 0 else if es then sid else 0 } tag r (hdrFrame sid es eh frag)).1 tag sid
+        (readStream { c with hdrEndStream := if eh then 0 else if es then sid else 0 } tag r (hdrFrame sid es eh frag)).2 (eh && es) := by
+  have hs : (hdrFrame sid es eh frag).stream = sid := rfl
+  simp only [dispatch, hs, hq, hr, hd, Bool.false_eq_true, if_false, prepare_hdr c sid es eh frag h0]
+
+/-- `dispatch` of a CONTINUATION frame on a stream that is waited on -/
+theorem dispatch_cont (c : Conn) (sid : Nat) (tag : String) (r : Req) (eh : Bool) (frag : Bytes)
+    (hq : lookupA c.reqQueued sid = some tag) (hr : getReq c tag = some r) (hd : r.done = false) :
+    dispatch c (contFrame sid eh frag) =
+      settle (readStream { c with hdrEndStream := if eh then 0 else c.hdrEndStream } tag r (contFrame sid eh frag)).1 tag sid
+        (readStream { c with hdrEndStream := if eh then 0 else c.hdrEndStream } tag r (contFrame sid eh frag)).2
+        (eh && c.hdrEndStream == sid) := by
+  have hs : (contFrame sid eh frag).stream = sid := rfl
+  simp only [dispatch, hs, hq, hr, hd, Bool.false_eq_true, if_false, prepare_cont]
+
+/-- a HEADERS frame without END_HEADERS opens a block: nothing is decoded, the fragment is kept and so is the stream
+END_STREAM is for -/
+theorem dispatch_open_block (c : Conn) (sid : Nat) (tag : String) (es : Bool) (frag : Bytes) (h0 : sid ≠ 0)
+    (h : Live c sid tag) :
+    (dispatch c (hdrFrame sid es false frag)).1 = { c with hdrEndStream := if es then sid else 0, hdrBlock := frag } := by
+  obtain ⟨hq, r, hr, hd⟩ := h
+  rw [dispatch_hdr c sid tag r es false frag h0 hq hr hd, readStream_hdr]
+  simp only [Bool.false_eq_true, if_false, Bool.false_and, settle_none_false]
+
+/-- a CONTINUATION frame without END_HEADERS adds its fragment -/
+theorem dispatch_more_block (c : Conn) (sid : Nat) (tag : String) (frag : Bytes) (h : Live c sid tag) :
+    (dispatch c (contFrame sid false frag)).1 = { c with hdrBlock := c.hdrBlock ++ frag } := by
+  obtain ⟨hq, r, hr, hd⟩ := h
+  rw [dispatch_cont c sid tag r false frag hq hr hd, readStream_cont]
+  simp only [Bool.false_eq_true, if_false, Bool.false_and, settle_none_false]
+
+theorem live_of_eq {c c' : Conn} {sid : Nat} {tag : String} (h : Live c sid tag)
+    (h1 : c'.reqQueued = c.reqQueued) (h2 : c'.reqs = c.reqs) : Live c' sid tag := by
+  obtain ⟨hq, r, hr, hd⟩ := h
+  exact ⟨by rw [h1]; exact hq, r, by simpa [getReq, h2] using hr, hd⟩
+
+/-- the CONTINUATION frame that closes a block does exactly what a single HEADERS frame with the whole block does -/
+theorem dispatch_close_block (c : Conn) (sid : Nat) (tag : String) (es : Bool) (b frag : Bytes) (h0 : sid ≠ 0)
+    (h : Live c sid tag) :
+    dispatch { c with hdrEndStream := if es then sid else 0, hdrBlock := b } (contFrame sid true frag) =
+      dispatch c (hdrFrame sid es true (b ++ frag)) := by
+  have h' : Live { c with hdrEndStream := if es then sid else 0, hdrBlock := b } sid tag := live_of_eq h rfl rfl
+  obtain ⟨hq, r, hr, hd⟩ := h
+  obtain ⟨hq', r', hr', hd'⟩ := h'
+  have : r' = r := by
+    have : getReq { c with hdrEndStream := if es then sid else 0, hdrBlock := b } tag = getReq c tag := rfl
+    rw [this, hr] at hr'; exact (Option.some.inj hr').symm
+  subst this
+  rw [dispatch_cont _ sid tag r' true frag hq' hr' hd', dispatch_hdr c sid tag r' es true (b ++ frag) h0 hq hr hd,
+    readStream_cont, readStream_hdr]
+  have he : ((if es = true then sid else 0) == sid) = es := by
+    cases es
+    · simpa using fun h : 0 = sid => h0 h.symm
+    · simp
+  simp only [if_true, Bool.true_and, decodeBlock, he]
+
+/-- the read loop's state after a HEADERS frame and any number of CONTINUATION frames, none with END_HEADERS -/
+def afterFragments (c : Conn) (sid : Nat) : List Bytes → Conn
+  | [] => c
+  | frag :: rest => afterFragments (dispatch c (contFrame sid false frag)).1 sid rest
+
+theorem afterFragments_eq (sid : Nat) (tag : String) (frags : List Bytes) :
+    ∀ c, Live c sid tag → afterFragments c sid frags = { c with hdrBlock := c.hdrBlock ++ frags.flatten } := by
+  induction frags with
+  | nil => intro c _; simp [afterFragments]
+  | cons f fs ih =>
+    intro c h
+    simp only [afterFragments]
+    rw [dispatch_more_block c sid tag f h, ih { c with hdrBlock := c.hdrBlock ++ f } (live_of_eq h rfl rfl)]
+    simp
+
+/-- **split_invariance**: a response header block cut into a HEADERS frame and any number of CONTINUATION frames, at
+any octets (in the middle of a field included), leaves the connection (the request, the HPACK decoding context,
+everything) in exactly the state in which the block in one HEADERS frame leaves it, and gives the read loop the same
+verdict -/
+theorem split_invariance (c : Conn) (sid : Nat) (tag : String) (es : Bool) (first : Bytes) (middle : List Bytes)
+    (last : Bytes) (h0 : sid ≠ 0) (h : Live c sid tag) :
+    dispatch (afterFragments (dispatch c (hdrFrame sid es false first)).1 sid middle) (contFrame sid true last) =
+      dispatch c (hdrFrame sid es true (first ++ middle.flatten ++ last)) := by
+  rw [dispatch_open_block c sid tag es first h0 h,
+    afterFragments_eq sid tag middle { c with hdrEndStream := if es then sid else 0, hdrBlock := first } (live_of_eq h rfl rfl)]
+  exact dispatch_close_block c sid tag es (first ++ middle.flatten) last h0 h
+
+/-- END_STREAM on a HEADERS frame ends the stream it was sent on and no other: a CONTINUATION frame with END_HEADERS on a
+stream for which no block ending the stream is open never ends that stream (it did between the first version of the
+repair of F36 and this one: the flag of an earlier block on another stream was still around) -/
+theorem stray_continuation_does_not_end (c : Conn) (sid : Nat) (frag : Bytes) (h : c.hdrEndStream ≠ sid) :
+    (prepare c (contFrame sid true frag)).2 = false := by
+  rw [prepare_cont]
+  simpa using h
+
+/-- and once a block is complete nothing of its END_STREAM is left -/
+theorem end_stream_spent (c : Conn) (f : Frame.Frame) (h : endsBlock f = true) : (prepare c f).1.hdrEndStream = 0 := by
+  simp [prepare, h]
+
+
+/-! ## the statement that failed before the repair of F36 -/
+
+theorem lookupA_eraseA {α} (l : List (Nat × α)) (k : Nat) : lookupA (eraseA l k) k = none := by
+  simp [lookupA, eraseA]
+
 /-- full strength: wherever a header block is cut into HEADERS + CONTINUATION, the request ends up as if
-the block had arrived in one frame (`split_invariance`, which with `no_cross_delivery` gives the
-property's "fragmented at any byte") -/
+the block had arrived in one frame (with `no_cross_delivery`: the property's "fragmented at any byte") -/
 def C02_full : Prop :=
   ∀ (c : Conn) (sid : Nat) (tag : String) (block : Bytes) (k : Nat) (es : Bool),
-    lookupA c.reqQueued sid = some tag → k ≤ block.length →
+    sid ≠ 0 → lookupA c.reqQueued sid = some tag → k ≤ block.length →
     getReq (dispatch (dispatch c (hdrFrame sid es false (block.take k))).1 (contFrame sid true (block.drop k))).1 tag =
     getReq (dispatch c (hdrFrame sid es true block)).1 tag
+
+theorem C02_full_holds : C02_full := by
+  intro c sid tag block k es h0 hq _
+  have hs1 : ∀ eh frag, (hdrFrame sid es eh frag).stream = sid := fun _ _ => rfl
+  have hs2 : ∀ eh frag, (contFrame sid eh frag).stream = sid := fun _ _ => rfl
+  cases hr : getReq c tag with
+  | none => simp [dispatch, hs1, hs2, hq, hr]
+  | some r =>
+    cases hd : r.done with
+    | true =>
+      have e : ∀ f : Frame.Frame, f.stream = sid → dispatch c f = ({ c with reqQueued := eraseA c.reqQueued sid }, false) := by
+        intro f hf; simp [dispatch, hf, hq, hr, hd]
+      rw [e _ (hs1 _ _), e _ (hs1 _ _)]
+      simp only [dispatch, hs2, lookupA_eraseA]
+    | false =>
+      have h : Live c sid tag := ⟨hq, r, hr, hd⟩
+      have := split_invariance c sid tag es (block.take k) [] (block.drop k) h0 h
+      simp only [afterFragments, List.flatten_nil, List.append_nil, List.take_append_drop] at this
+      rw [this]
 
 def cF36 : Conn := { reqs := [{ tag := "a", sid := 1, hasConn := true }], reqQueued := [(1, "a")], nextID := 3, openStreams := 1 }
 
@@ -149,28 +350,52 @@ theorem F36_whole_ok :
       some (some .ok, 200, [([0x78, 0x2d, 0x61], [0x62])]) := by
   decide
 
-/-- … cut after three octets, the first frame alone is decoded, fails in the middle of a field, and the
-request is failed with the decoder's error before the rest of the block arrives -/
-theorem F36_witness :
+/-- … and so it is cut after three octets, in the middle of the field `x-a: b` (the input on which the request used to
+fail with the decoder's error): non-vacuity of `split_invariance`, and the regression example of F36 -/
+theorem F36_regression :
     ((getReq (dispatch (dispatch cF36 (hdrFrame 1 true false (blockF36.take 3))).1 (contFrame 1 true (blockF36.drop 3))).1 "a").map
-      fun r => r.errBuf) = some (some .hpack) := by
+      fun r => (r.errBuf, r.status, r.hdrs)) = some (some .ok, 200, [([0x78, 0x2d, 0x61], [0x62])]) := by
   decide
 
-theorem C02_full_fails : ¬ C02_full := by
-  intro h
-  have := h cF36 1 "a" blockF36 3 true (by decide) (by decide)
-  have e1 := F36_whole_ok
-  have e2 := F36_witness
-  rw [this] at e2
-  cases hg : getReq (dispatch cF36 (hdrFrame 1 true true blockF36)).1 "a" with
-  | none => rw [hg] at e1; cases e1
-  | some r => rw [hg] at e1 e2; simp at e1 e2; rw [e1.1] at e2; cases e2
+example : Live cF36 1 "a" := ⟨by decide, _, rfl, rfl⟩
 
-/-- **no_cross_delivery_partial** is `no_cross_delivery` above: it holds for every frame; what is
-missing from the full property is only `split_invariance` (blocks in a single frame are decoded whole by
-construction of `readHeader`). -/
+/-! ## dynamic table size updates in a response block -/
+
+/-- **a dynamic table size update behind a field of the block is refused**, and the decoder's table is left as it was:
+`readHeader` sees the whole block and tells the decoder how many fields it has decoded (RFC 7541 4.2) -/
+theorem update_after_field_rejected (st : Hpack.DecState) (nf c : Nat) (rest : Bytes) (n : Nat) (r : Bytes)
+    (hnf : nf > 0) (hc : 32 ≤ c ∧ c < 64) (hi : Hpack.readInt 5 (c :: rest) = .ok n r) :
+    nextField st nf (c :: rest) = .err st := by
+  have h1 : ¬ c ≥ 128 := by omega
+  have h2 : ¬ c ≥ 64 := by omega
+  have h3 : c ≥ 32 := by omega
+  have hn : Hpack.Dec.next st true nf (c :: rest) = .err := by
+    simp [Hpack.Dec.next, Hpack.nextFuel, h1, h2, h3, hi, hnf]
+  have hs : Hpack.Dec.skipUpdates st true nf (c :: rest) = (st, c :: rest) := by
+    simp [Hpack.Dec.skipUpdates, Hpack.skipFuel, hc.1, hc.2, hi, hnf]
+  have hm : indexMiss st (c :: rest) = false := by
+    simp [indexMiss, h1, h2, h3]
+  simp only [nextField, hn, hs, hm]
+  rfl
+
+/-- so the request ends with the decoder's error -/
+theorem block_with_late_update_fails (fuel : Nat) (st : Hpack.DecState) (q : Req) (rs ss : Bool) (nf c : Nat) (rest : Bytes)
+    (n : Nat) (r : Bytes) (hnf : nf > 0) (hc : 32 ≤ c ∧ c < 64) (hi : Hpack.readInt 5 (c :: rest) = .ok n r) :
+    readHeader (fuel + 1) st q rs ss nf (c :: rest) = (st, q, some .hpack) := by
+  simp [readHeader, update_after_field_rejected st nf c rest n r hnf hc hi]
+
+/-- a dynamic table size update behind a field is a decoding error … -/
+example : (readHeader 3 {} { tag := "a" } false false 0 [0x88, 0x20]).2.2 = some .hpack := by decide
+
+/-- … in front of the first field it is in its place … -/
+example : (readHeader 3 {} { tag := "a" } false false 0 [0x20, 0x88]).2.2 = none := by decide
+
+/-- … and a block that is a size update and nothing else (a trailer block can be) is no error -/
+example : (readHeader 3 {} { tag := "a" } false false 0 [0x20]).2.2 = none := by decide
+
+/-- blocks in a single frame are decoded whole by construction of `readHeader` -/
 theorem single_frame_block_decoded_whole (c : Conn) (tag : String) (r : Req) (sid : Nat) (es : Bool) (block : Bytes) :
-    (readStream c tag r (hdrFrame sid es true block)).2 = (readHeader (block.length + 1) c.dec r false false block).2.2 := by
-  simp [readStream, hdrFrame]
+    (readStream c tag r (hdrFrame sid es true block)).2 = (readHeader (block.length + 1) c.dec r false false 0 block).2.2 := by
+  rw [readStream_hdr]; simp [decodeBlock]
 
 end H2.Props.C02
